@@ -280,9 +280,36 @@ def vacant_insert(c):
     return [(c.st, c.top_ret())]
 
 
+def entry_item(c, op, elem_cell):
+    """what one step of `values` / `values_mut` / `iter` / `iter_mut` / `keys` hands out for the entry whose value lives in
+    elem_cell.  The key of an entry is tracked only through the rule-supplied invariant `map_key_field` (the field of the
+    value that equals its key); otherwise it is an unknown key."""
+    if op in ("values", "values_mut"):
+        return Ref(elem_cell)
+    kf = getattr(c.it, "map_key_field", None)
+    kcell = elem_cell + ":key"
+    if kcell not in c.st.cells:
+        key = TOP
+        ev = c.st.cells.get(elem_cell)
+        if kf and isinstance(ev, Struct):
+            for a in c.term["func"].get("targs", []):
+                t = c.fr.body.ty(a)
+                if t.get("k") == "adt" and t["path"] in c.it.prog.adts and c.it.prog.adts[t["path"]].get("local") and c.it.prog.adts[t["path"]]["kind"] == "struct":
+                    names = [f["name"] for f in c.it.prog.adts[t["path"]]["variants"][0]["fields"]]
+                    if kf in names:
+                        key = ev.get(names.index(kf))
+        c.st.cells[kcell] = key
+    if op == "keys":
+        return Ref(kcell)
+    return Struct({0: Ref(kcell), 1: Ref(elem_cell)})
+
+
 @first(r"^" + MAP + r"::(values_mut|values|iter|iter_mut|keys)$")
 def map_iter(c):
     mid = map_id(c, c.args[0])
+    op_ = c.name.rsplit("::", 1)[1]
+    if op_ == "into_iter":
+        op_ = "iter_mut" if "&mut " in c.name else "iter"
     n = c.it.fresh_num(c.st, 0, ISIZE_MAX, "nmap")
     if mid is None:
         return [(c.st, Iter(n.e, False, "map"))]
@@ -299,7 +326,7 @@ def map_iter(c):
                     if t.get("k") == "adt" and t["path"].split("::")[0] in ("stun_proto", "stun_types") and "TransactionId" not in t["path"]:
                         elem = tag_seqs(c.it.top_of(c.st, c.fr.body, a, hint="elem%d" % (i + 1), region_prefix=cell_i), "elem%d" % (i + 1))
                 c.st.cells[cell_i] = elem
-            refs[i] = Ref(cell_i)
+            refs[i] = entry_item(c, op_, cell_i)
         event(c.st, "iterate", mid, c.name.rsplit("::", 1)[1])
         return [(c.st, Iter(Lin.const(k), False, "mapk", None, Struct(refs, tag="elems")))]
     cell = "mapelem:%s" % mid
@@ -315,7 +342,7 @@ def map_iter(c):
                 elem = tag_seqs(it.top_of(c.st, c.fr.body, a, hint="elem", region_prefix=cell), "elem")
         c.st.cells[cell] = elem
     event(c.st, "iterate", mid, c.name.rsplit("::", 1)[1])
-    return [(c.st, Iter(n.e, False, "map", None, Ref(cell)))]
+    return [(c.st, Iter(n.e, False, "map", None, entry_item(c, op_, cell)))]
 
 
 @first(r"^<std::collections::(btree_map|hash_map)::(ValuesMut|Values|Iter|IterMut|Keys)<.*> as std::iter::Iterator>::next$")
@@ -720,3 +747,35 @@ def option_as_ref(c):
         else:
             out.append((st, Enum(OPTION, {1: Struct({0: Ref(r.cell, tuple(r.path) + (("v", 1), ("f", 0)))})})))
     return out
+
+
+# ------------------------------------------------------------------------------------------- bool::then / then_some, operators on references
+
+@first(r"^core::bool::<impl bool>::then_some::<.*>$")
+def bool_then_some(c):
+    out = []
+    for st, t in as_truth(c, c.st, c.args[0]):
+        out.append((st, Enum(OPTION, {1: Struct({0: c.args[1]})}) if t else Enum(OPTION, {0: Struct()})))
+    return out
+
+
+@first(r"^core::bool::<impl bool>::then::<.*>$")
+def bool_then(c):
+    out = []
+    for st, t in as_truth(c, c.st, c.args[0]):
+        if not t:
+            out.append((st, Enum(OPTION, {0: Struct()})))
+            continue
+        res = c.call_closure(st, c.args[1], [], "then")
+        if res is None:
+            c.escape(c.args[1])
+            out.append((st, c.top_ret(st)))
+        else:
+            out.extend((s2, Enum(OPTION, {1: Struct({0: r})})) for s2, r in res)
+    return out
+
+
+@first(r"^<&(u8|u16|u32|u64|u128|usize) as std::ops::(BitXor|BitAnd|BitOr)(<&?(u8|u16|u32|u64|u128|usize)>)?>::(bitxor|bitand|bitor)$")
+def ref_bitop(c):
+    """bit operators on references to integers: total, the result is an integer of that type"""
+    return [(c.st, c.top_ret())]
